@@ -55,6 +55,7 @@ type TCPConn struct {
 	Index        int // creation order within the execution
 	readDeadline *vrt.Timer
 	rdExpired    bool
+	ReadBytes    int // bytes this end has consumed so far
 }
 
 // WireEvent is one Write as seen on the wire.
@@ -152,6 +153,7 @@ func (c *TCPConn) Read(b []byte) (int, error) {
 	}
 	k := copy(b, c.in.buf)
 	c.in.buf = c.in.buf[k:]
+	c.ReadBytes += k
 	vrt.Fold(uint64(k))
 	return k, nil
 }
